@@ -71,3 +71,13 @@ add("C20", "exploration", "differential bare vs wrapped at the server boundary (
     "with list, tuple, generator and custom iterable bodies, apps raising before/after start or mid-body) are run bare and behind identity middleware stacks (depth 1-3), identity decorator stacks and a "
     "one-header-editing middleware on both interfaces; observations must be equal (modulo the edited header), the inner app must have run exactly once, and errors must keep their type with a prefix output.",
     "Header comparison is a multiset with case-folded names; folding of repeated non-Set-Cookie headers is a listed known finding.")
+add("C01", "exploration", "encoder-inverse reference model (harness-owned RFC 7578 encoder = ground truth) for five access paths + event-grammar automaton on next_event(); all single cut positions and all cut pairs of small bodies",
+    "Adversarial forms (content built from CR/LF/dash/partial-boundary fragments, 10 boundaries, odd names, preamble/epilogue/padding) are encoded by the harness and decoded by the real event-level decoder, "
+    "parse_stream, parse_async_stream, wsgi.Request.form (short reads) and asgi.Request.form (http.request messages) under: whole body, one byte at a time, EVERY single cut position (event-level and sync "
+    "paths, sampled for the others), every pair of cuts for small bodies, random k-cuts with empty chunks; each result must equal the encoded part list.",
+    "Trusts the 40-line encoder; names/filenames without quote/backslash/line break; content free of '--'+boundary; per-case 30 s limit only guards against non-termination.")
+add("C15", "exploration", "exact-count oracle from the encoder for 413 decisions (sync/async/accessors, limits at total-1/0/+1) + invariant at a hook: recording MultipartDecoder subclass samples the hold-back buffer at every NEED_DATA; fed-vs-sink lag and early-rejection monitors",
+    "Limits: generated forms x (max parts, max field bytes) around the exact totals x chunk sizes through the real sync and async helpers (and the request accessors' defaults) must raise 413 exactly when a limit "
+    "is exceeded, identically. Bound: 0.2-2 MB (thorough 8 MB) file and field parts with hostile line-break placement are streamed in 1000/4096/65536-byte chunks; the decoder's buffer at quiescent "
+    "points, the lag of the file sink behind the fed bytes and the point at which an over-limit field is rejected must stay within chunk + delimiter + 8.",
+    "Bound checked at quiescent points / chunk borders; header sections and preamble are small in the workload.")
